@@ -133,12 +133,21 @@ def materialise(ab, shuffle_seed=0):
             "want_nuc": r["nuc"]} for k, r in enumerate(ab["res"])]
     if len(res) == 2 and ab["res"][1].get("lig") and res[1]["want_nuc"]:
         res[1]["lig"], res[1]["resname"] = True, "2BA"          # a nucleotide ligand (non-polymer entity in mmCIF)
-    if len(res) == 2 and ab["res"][1].get("ins") and res[0]["chain"] == res[1]["chain"]:
+    if len(res) == 2 and ab["res"][1].get("twin") and res[0]["want_nuc"] == res[1]["want_nuc"]:
+        # a symmetry mate that keeps the author identity of residue 1 (chain, number, name); only the label chain
+        # tells the two apart, so both print the same name
+        res[1].update(chain=res[0]["chain"], number=res[0]["number"], icode=None, resname=res[0]["resname"],
+                      label_chain="Z")
+    elif len(res) == 2 and ab["res"][1].get("ins") and res[0]["chain"] == res[1]["chain"]:
         res[1]["number"], res[1]["icode"] = res[0]["number"], "A"       # residues N and N^A
     per = {k + 1: [] for k in range(len(res))}
     for t in ab["test"]:
         name = NAMES[t["t"]][t["k"] % len(NAMES[t["t"]])]
         per[t["r"]].append({"name": name, "occ": None if t["occ"] == 101 else t["occ"], "x": t["x"], "test": True})
+    if len(res) == 2 and res[1].get("label_chain"):
+        # the symmetry mate is a shifted copy of residue 1: every clash inside residue 1 exists twice and both
+        # copies print alike
+        per[2] = [dict(a, x=a["x"] + 50000) for a in per[1]]
     slot = 0
     for k, r in enumerate(ab["res"]):
         if r["nuc"]:
@@ -401,7 +410,8 @@ def write_cif(st, path):
                 continue
             serial += 1
             occ = "." if a["occ"] is None else "%.2f" % (a["occ"] / 100)
-            row = ["HETATM" if r.get("lig") else "ATOM", serial, a["name"][0], a["name"], ".", r["resname"], r["chain"],
+            row = ["HETATM" if r.get("lig") else "ATOM", serial, a["name"][0], a["name"], ".", r["resname"],
+                   r.get("label_chain", r["chain"]),
                    ent[k], "." if r.get("lig") else k + 1,
                    r.get("icode") or "?", "%.3f" % a["xyz"][0], "%.3f" % a["xyz"][1], "%.3f" % a["xyz"][2], occ,
                    "10.00", r["number"], r["resname"], r["chain"], a["name"], 1]
@@ -541,10 +551,23 @@ def record_cli(case, scratch_dir):
     atoms, res, rid, aid, xyz = _record_struct(ref)
     rname, aname = _names_of(ref)
     if 0 in rname.values() or 0 in aname.values():
-        # printed residue / atom names do not identify the atoms of this input uniquely: the
-        # report cannot be mapped back to atoms, so the input is unusable for the CLI clauses
+        # printed residue / atom names do not identify the atoms of this input uniquely: the report cannot be
+        # mapped back to atoms; what remains decidable is that report, CSV and library list the same number of
+        # clashes (one record of kind "csvcount", from a run with --csv)
+        csv_path = base + ".out.csv"
+        if os.path.exists(csv_path):
+            os.remove(csv_path)
+        err2, text2, seen2 = run_main(path, o, csv_path)
+        nprinted = sum(1 for ln in text2.splitlines() if _RX_ATOM.match(ln))
+        exists, ncsv = os.path.exists(csv_path), 0
+        if exists:
+            with open(csv_path, newline="") as f:
+                ncsv = max(0, len(list(_csv.reader(f))) - 1)
+            os.remove(csv_path)
         os.remove(path)
-        return []
+        return [{"id": case["id"] + "/csvcount", "kind": "csvcount", "o": o, "err": err2,
+                 "nlib": len(seen2.get("out", [])) if seen2 else -1, "nprinted": nprinted, "csv_exists": exists,
+                 "ncsv": ncsv, "src": dict(case.get("src", {}), fmt=case.get("fmt", "corpus"), opt=case["opt"])}]
     try:
         lib_list = []
         for (ri, ai), (rj, aj), sm in seen["out"]:
